@@ -50,6 +50,10 @@ pub struct GenCfg {
     pub divert_global: bool,
     /// words with quotes, apostrophes, non-ASCII, control characters (for output-format checks)
     pub hostile_words: bool,
+    /// different lists share item names (resolution of a bare name must still be repeatable)
+    pub shared_item_names: bool,
+    /// many globals (order of maps in saves)
+    pub many_globals: bool,
 }
 
 impl GenCfg {
@@ -90,6 +94,8 @@ impl GenCfg {
             thread_boost: false,
             divert_global: false,
             hostile_words: false,
+            shared_item_names: false,
+            many_globals: false,
         }
     }
     /// everything, including the nondeterministic-looking features (for lockstep oracles)
@@ -199,7 +205,7 @@ impl<'a> Builder<'a> {
         let cfg = self.cfg;
         let mut p = Program::default();
         // globals
-        let n_int = 2 + self.rng.below(3);
+        let n_int = if cfg.many_globals { 14 + self.rng.below(8) } else { 2 + self.rng.below(3) };
         for i in 0..n_int {
             let name = format!("gi{i}");
             p.globals.push((name.clone(), Expr::Int(self.rng.below(5) as i32)));
@@ -230,7 +236,12 @@ impl<'a> Builder<'a> {
                 let mut v = if cfg.list_ties { 0 } else { li as i32 * 20 };
                 for k in 0..n_items {
                     v += 1 + self.rng.below(2) as i32;
-                    items.push((format!("it{li}{}", (b'a' + k as u8) as char), v, self.rng.chance(1, 3)));
+                    let iname = if cfg.shared_item_names && k < 2 {
+                        format!("sh{}", (b'a' + k as u8) as char)
+                    } else {
+                        format!("it{li}{}", (b'a' + k as u8) as char)
+                    };
+                    items.push((iname, v, self.rng.chance(1, 3)));
                 }
                 let name = format!("lst{li}");
                 self.lists.push(ListDecl { name: name.clone(), items });
